@@ -194,6 +194,7 @@ type OpProfile struct {
 	Spellings     bool
 	NoSingleton   bool
 	NoSingletonVars bool // variable JSON values never use single-item → list coercion
+	VarBias       int  // 0 = default (1 in 3 arguments is a plain variable); n>0 = n in 10
 	SkipVarInList bool // do not put variables inside list/object literals
 	// FieldFilter, when set, restricts which fields may be selected (e.g. implemented by a mock).
 	FieldFilter func(parent string, f *Field) bool
@@ -380,7 +381,11 @@ func (g *opGen) genArgs(f *Field) []*ArgVal {
 			continue
 		}
 		var v *Val
-		if g.p.Variables && g.r.IntN(3) == 0 {
+		useVar := g.r.IntN(3) == 0
+		if g.p.VarBias > 0 {
+			useVar = g.r.IntN(10) < g.p.VarBias
+		}
+		if g.p.Variables && useVar {
 			v = g.varFor(a.Type, a.Default != nil)
 		}
 		if v == nil {
